@@ -2,8 +2,8 @@
 from harness._compute import search_with, sym_correspondence
 
 PROPERTY = "C10"
-LEAN_TARGETS = ['VectorModel.Props.C10']
-THEOREM_FILES = ['VectorModel/Props/C10.lean']
+LEAN_TARGETS = ['VectorModel.Props.C10', 'VectorModel.Props.C10Quat']
+THEOREM_FILES = ['VectorModel/Props/C10.lean', 'VectorModel/Props/C10Quat.lean']
 NOT_COVERED = ['float64 rounding']
 ALWAYS_SEARCH = True          # the law sweep on the real code is cheap: run it in every tier (exploration, not proof)
 search = search_with("c10")
